@@ -91,3 +91,9 @@ CORPUS += [
         "        if len(self.frequencies.shape[:-1]) != len(self.rates.shape[:-1]):\n            pi = self.frequencies.unsqueeze(0).unsqueeze(-2)\n            rates = self.rates.unsqueeze(-2)\n        elif len(self.frequencies.shape) == 1:",
         "        if len(self.frequencies.shape) == 1:", mode='text', expect=[('C04.L', 'batched::evolution.substitution_model.nucleotide.GTR.q::self.rates.unsqueeze(0)')]),
 ]
+CORPUS += [
+    Mut('c04-branch-lengths-floored-before-the-exponential', 'torchtree/evolution/substitution_model/abstract.py', 'SymmetricSubstitutionModel.p_t', 'Q_unnorm = self.q()', 'branch_lengths = branch_lengths.clamp(min=1e-06)\nQ_unnorm = self.q()',
+        expect=[('C04.E', 'abstract::SymmetricSubstitutionModel.p_t::time-enters-as-it-is')]),
+    Mut('c04-mg94-beta-for-every-pair-that-is-not-synonymous', 'torchtree/evolution/substitution_model/codon.py', '', "            * (torch.where(self.synonymous == 1.0, alpha, ones))\n            * (torch.where(self.non_synonymous == 1.0, beta, ones))\n",
+        "            * (torch.where(self.synonymous == 1.0, alpha, beta))\n", mode='text', expect=[('C04.B', 'MG94.q::each-parameter-selected-against-one')]),
+]
